@@ -180,6 +180,10 @@ pub enum DiskOp {
     Remove { path: String },
     RemoveDir { path: String },
     MkDir { path: String },
+    /// `path` becomes a symbolic link to `target` (relative to the scratch root unless absolute).
+    Symlink { path: String, target: String },
+    /// `path` becomes a named pipe.
+    Fifo { path: String },
 }
 
 #[derive(Clone, Debug, PartialEq)]
@@ -274,6 +278,8 @@ impl Op {
                 DiskOp::Remove { path } => json!({"op":"disk.remove","path":path}),
                 DiskOp::RemoveDir { path } => json!({"op":"disk.remove_dir","path":path}),
                 DiskOp::MkDir { path } => json!({"op":"disk.mkdir","path":path}),
+                DiskOp::Symlink { path, target } => json!({"op":"disk.symlink","path":path,"target":target}),
+                DiskOp::Fifo { path } => json!({"op":"disk.fifo","path":path}),
             },
             Op::Barrier => json!({"op":"barrier"}),
             Op::ProbeText { uri } => json!({"op":"probe_text","uri":uri}),
@@ -316,6 +322,8 @@ impl Op {
             "disk.remove" => Op::Disk(DiskOp::Remove { path: s("path") }),
             "disk.remove_dir" => Op::Disk(DiskOp::RemoveDir { path: s("path") }),
             "disk.mkdir" => Op::Disk(DiskOp::MkDir { path: s("path") }),
+            "disk.symlink" => Op::Disk(DiskOp::Symlink { path: s("path"), target: s("target") }),
+            "disk.fifo" => Op::Disk(DiskOp::Fifo { path: s("path") }),
             "probe_text" => Op::ProbeText { uri: s("uri") },
             _ => Op::Barrier,
         }
@@ -494,7 +502,28 @@ pub fn apply_disk(root: &str, d: &DiskOp) {
             let _ = std::fs::remove_dir_all(full(path));
         }
         DiskOp::MkDir { path } => {
-            let _ = std::fs::create_dir_all(full(path));
+            let f = full(path);
+            let _ = std::fs::remove_file(&f);
+            let _ = std::fs::create_dir_all(f);
+        }
+        DiskOp::Symlink { path, target } => {
+            let f = full(path);
+            let _ = std::fs::remove_file(&f);
+            let _ = std::fs::remove_dir_all(&f);
+            if let Some(parent) = std::path::Path::new(&f).parent() {
+                let _ = std::fs::create_dir_all(parent);
+            }
+            let t = if target.starts_with('/') { target.clone() } else { full(target) };
+            let _ = std::os::unix::fs::symlink(t, f);
+        }
+        DiskOp::Fifo { path } => {
+            let f = full(path);
+            let _ = std::fs::remove_file(&f);
+            if let Ok(c) = std::ffi::CString::new(f) {
+                unsafe {
+                    libc::mkfifo(c.as_ptr(), 0o644);
+                }
+            }
         }
     }
 }
